@@ -20,6 +20,10 @@ func TestMain(m *testing.M) {
 
 func propTruth(t *rapid.T) {
 	cfg := hist.GenConfig(t, []uint{0, 100, 1000}, false)
+	// one history in three asks through the HTTP handler (what wallets see) instead of the Go API
+	if rapid.IntRange(0, 2).Draw(t, "reads_via_http") == 0 {
+		cfg.WithServer, cfg.ReadsViaHTTP = true, true
+	}
 	m := hist.Run(t, cfg, hist.Options{
 		Weights: hist.Weights(map[string]int{"checkstate": 3, "checkstate_adv": 6, "restore": 6, "locked_spend": 4, "restart": 2, "rotate": 1, "swap_adv": 1, "melt": 5, "meltquote": 4, "resolve": 2, "mint": 1}),
 		Owns:    []string{"C15"},
@@ -27,6 +31,9 @@ func propTruth(t *rapid.T) {
 	})
 	if m.Count["checkstate_mixed_states"] > 0 || m.Count["restore_mixed"] > 0 {
 		rec.NonTrivial(strings.Join(m.Trace, "|"))
+		if cfg.ReadsViaHTTP {
+			rec.Class("history_read_through_http_handler")
+		}
 		for _, k := range []string{"checkstate_mixed_states", "restore_mixed", "restart", "rotation", "melt_PENDING", "melt_UNPAID", "melt_PAID", "spend_with_witness", "outputs_upper_case_hex", "restore_of_refused_output", "restore_probe_after_refusal"} {
 			if m.Count[k] > 0 {
 				rec.Class("history_with_" + k)
